@@ -21,7 +21,9 @@
 // sequence number of each mutant on a pipe BEFORE calling Extract, runs Extract under recover(), and
 // reports results. The parent kills a worker that is silent for the watchdog period (default 120 s; the
 // normal cost of a mutant is < 10 ms), books `<extractor>:hang` on the announced mutant and restarts the
-// worker after it. Workers run with GOMEMLIMIT=2GiB and RLIMIT_AS=8GiB; a worker that dies is booked on
+// worker after it. A watchdog expiry is only a SUSPICION: the mutant is re-run alone in a fresh worker with 4x
+// the watchdog (>= 120 s) and `<extractor>:hang` is booked only if that attempt is silent too; otherwise it
+// is counted as slow_under_load_confirmed_not_hanging (a verdict must not depend on machine load). Workers run with GOMEMLIMIT=2GiB and RLIMIT_AS=8GiB; a worker that dies is booked on
 // the mutant it announced (`<extractor>:oom` or `<extractor>:fatal:<site>`).
 //
 // Don't-care cells (the property text is silent; every behaviour is accepted):
@@ -198,15 +200,17 @@ type coord struct {
 	wdForced bool
 	deadline time.Time
 
-	mu        sync.Mutex
-	distinct  map[uint64]struct{}
-	classes   map[string]map[string]classRep // extractor -> class -> first representative
-	perEx     map[string]*exStat
-	samples   int
-	harness   []string
-	slow      []string
-	unitTimes []unitTime
-	budgetPct int
+	mu             sync.Mutex
+	distinct       map[uint64]struct{}
+	classes        map[string]map[string]classRep // extractor -> class -> first representative
+	perEx          map[string]*exStat
+	samples        int
+	harness        []string
+	slow           []string
+	unitTimes      []unitTime
+	slowNotHanging int
+	slowExamples   []string
+	budgetPct      int
 }
 
 type exStat struct {
@@ -233,6 +237,7 @@ type unitOutcome struct {
 	slowInc      int
 	abandoned    bool
 	partial      bool
+	hung         bool // confirmation runs only: the watchdog fired again
 	obs          []string
 }
 
@@ -250,6 +255,9 @@ type manager struct {
 	wd        atomic.Int64
 	rssAtKill atomic.Int64
 	hardDL    atomic.Int64 // unix nanos after which a still-running unit is cut (not a violation)
+	// confirming: this manager re-runs ONE mutant whose first attempt ran into the watchdog, in a fresh worker
+	// with 4x the watchdog (>= 120 s); it reports out.hung instead of booking anything itself.
+	confirming bool
 }
 
 func (m *manager) ensure() error {
@@ -350,6 +358,13 @@ func classifyDeath(stderr string, ws syscall.WaitStatus) (kind, detail string) {
 func (m *manager) run(u unit) (out unitOutcome, err error) {
 	c := m.c
 	m.wd.Store(int64(c.wdFor(u.Ex)))
+	if m.confirming {
+		w := 4 * c.wdFor(u.Ex)
+		if w < 120*time.Second {
+			w = 120 * time.Second
+		}
+		m.wd.Store(int64(w))
+	}
 	m.hardDL.Store(0)
 	if u.Deadline > 0 {
 		m.hardDL.Store(time.Unix(u.Deadline, 0).Add(10 * time.Second).UnixNano())
@@ -475,8 +490,22 @@ func (m *manager) run(u unit) (out unitOutcome, err error) {
 			// silent for the whole watchdog period while sitting above GOMEMLIMIT: a memory runaway that the
 			// garbage collector is slowing down, i.e. the same root cause as an RLIMIT_AS abort a little later
 			c.violation(u, u.Ex+":oom", fmt.Sprintf("%s made no progress for %v and holds %d MiB resident (GOMEMLIMIT 2 GiB)", u.Ex, time.Duration(m.wd.Load()), m.rssAtKill.Load()>>20), seq)
+		} else if m.killedBy.Load() == 1 && m.confirming {
+			out.hung = true
+			return out, nil
 		} else if m.killedBy.Load() == 1 {
-			c.violation(u, u.Ex+":hang", fmt.Sprintf("%s made no progress for %v", u.Ex, time.Duration(m.wd.Load())), seq)
+			// A hang verdict must not depend on wall-clock luck (a loaded machine): the mutant is run once more,
+			// alone, in a fresh worker with at least 4x the watchdog; only a second silence is booked.
+			if hung, cw := c.confirmHang(m.id, u, seq); hung {
+				c.violation(u, u.Ex+":hang", fmt.Sprintf("%s made no progress for %v, and again for %v when re-run alone in a fresh worker", u.Ex, time.Duration(m.wd.Load()), cw), seq)
+			} else {
+				c.mu.Lock()
+				c.slowNotHanging++
+				if len(c.slowExamples) < 10 {
+					c.slowExamples = append(c.slowExamples, fmt.Sprintf("%s %s%s cand %d mutant %d: silent for %v under load, returned when re-run alone", u.Ex, arcLabel(u), u.Seed, u.Cand, seq, time.Duration(m.wd.Load())))
+				}
+				c.mu.Unlock()
+			}
 		} else {
 			kind, detail := classifyDeath(p.stderr.String(), ws)
 			owner := u.Ex
@@ -541,6 +570,44 @@ func (c *coord) noteUnitTime(u unit, d, start time.Duration) {
 	c.mu.Lock()
 	c.unitTimes = append(c.unitTimes, unitTime{fmt.Sprintf("%s %s cand %d arc %s entry %d", u.Ex, u.Seed, u.Cand, u.Arc, u.Entry), d, start})
 	c.mu.Unlock()
+}
+
+// confirmHang re-runs mutant seq of u alone; it returns whether the watchdog fired again and the watchdog used.
+func (c *coord) confirmHang(id int, u unit, seq int) (bool, time.Duration) {
+	cu := u
+	cu.Resume, cu.Deadline = 0, 0
+	switch u.Kind {
+	case "extract":
+		if u.Data == nil {
+			src, err := openSource(u)
+			if err != nil {
+				return true, 0
+			}
+			_, b, ok := src.regenerate(u.Tier, seq)
+			if !ok {
+				return true, 0
+			}
+			d := base64.StdEncoding.EncodeToString(b)
+			cu.Data = &d
+			if u.Arc != "" {
+				cu.Seed, cu.Arc, cu.Entry = u.Arc, "", 0
+			}
+		}
+	case "engine":
+		d := ""
+		cu.Data, cu.Seq = &d, seq
+	}
+	cm := &manager{id: id + 100, c: c, confirming: true}
+	stop := make(chan struct{})
+	go cm.watch(stop)
+	o, err := cm.run(cu)
+	close(stop)
+	cm.p.stop()
+	w := time.Duration(cm.wd.Load())
+	if err != nil {
+		return true, w
+	}
+	return o.hung, w
 }
 
 func (c *coord) noteStats(ex string, g msg) {
@@ -1026,6 +1093,7 @@ func main() {
 		su = append(su, fmt.Sprintf("%s: %.1fs (started at %.1fs)", ut.what, ut.dur.Seconds(), ut.start.Seconds()))
 	}
 	r.Set("slowest_units", su)
+	r.Set("slow_under_load_confirmed_not_hanging", map[string]any{"count": c.slowNotHanging, "examples": c.slowExamples})
 	r.Set("tight_budget_max_alloc_percent_of_limit", c.budgetPct)
 	sort.Strings(c.harness)
 	for i, h := range c.harness {
